@@ -35,6 +35,13 @@ def _pin_environment():
 def main():
     _pin_environment()
     sys.path.insert(0, ROOT)
+    # COPULAS_REPO=<dir> runs the checks against another checkout of sdv-dev/Copulas (a scratch
+    # worktree holding a seeded change) instead of /repo; default is /repo's working tree
+    alt = os.environ.get('COPULAS_REPO')
+    if alt:
+        sys.path.insert(0, alt)
+        import copulas
+        assert os.path.realpath(copulas.__file__).startswith(os.path.realpath(alt)), copulas.__file__
     ap = argparse.ArgumentParser()
     ap.add_argument('property')
     ap.add_argument('--tier', default=os.environ.get('VERIF_TIER', 'quick'),
